@@ -35,6 +35,34 @@ def is_connected(d):
     return len(seen) == n
 
 
+def parallel_connected(rng):
+    """A connected diagram with commuting branches: a source box fans out k wires, each wire gets
+    a chain of 0-2 unary boxes (these commute across wires), optionally a sink joins them."""
+    k = rng.randint(2, 3)
+    names = ["a", "b", "c"]
+    wires = [(rng.choice(names), 0) for _ in range(k)]
+    boxes = [dict(kind="g", name="src", dom=[], cod=list(wires), dagger=False, data=None)]
+    offsets = [0]
+    steps = []
+    for w in range(k):
+        for _ in range(rng.randint(0, 2)):
+            steps.append(w)
+    rng.shuffle(steps)
+    cur = list(wires)
+    for w in steps:
+        new = (rng.choice(names), 0)
+        boxes.append(dict(kind="g", name="u%d" % rng.randint(0, 3), dom=[cur[w]], cod=[new],
+                          dagger=False, data=None))
+        offsets.append(w)
+        cur[w] = new
+    cod = list(cur)
+    if rng.random() < 0.6:
+        boxes.append(dict(kind="g", name="snk", dom=list(cur), cod=[], dagger=False, data=None))
+        offsets.append(0)
+        cod = []
+    return ("mk", [], cod, boxes, offsets)
+
+
 def exchange_class(d, cap=250):
     """Closure of {d} under legal adjacent exchanges (both preferences), by the independent
     simulation of the exchange rule; diagrams rebuilt with the scanning public constructor."""
@@ -166,8 +194,11 @@ def run(tier, seed, replay=None):
         # ---- canonicity on whole interchanger classes of connected diagrams
         explored = exhaustive = members = 0
         while explored < n_classes:
-            g = Gen(random.Random(rng.getrandbits(64)), rigid=False, maxw=4)
-            e, _ = g.diagram(depth=rng.choice([2, 3, 3, 4, 4, 5]))
+            if explored % 2:
+                e = parallel_connected(random.Random(rng.getrandbits(64)))
+            else:
+                g = Gen(random.Random(rng.getrandbits(64)), rigid=False, maxw=4)
+                e, _ = g.diagram(depth=rng.choice([2, 3, 3, 4, 4, 5]))
             d = fam.run(e)
             if not is_connected(d) or len(d.boxes) < 2:
                 continue
